@@ -147,7 +147,7 @@ End Tail.
 
 Lemma cc_charloop f k l o c m n : 0 <= m <= n -> n <= INF -> ok_node (S f) (NCharLoop k l o c m n).
 Proof.
-  intros Hm Hn s res Hsem Hst a tbl T S C M Hc Hex Hk Hr.
+  intros Hm Hn s res Hsem Hst a tbl T S C M Hc Hex Hk Hr Htb.
   cbn [sem] in Hsem. injection Hsem as <-.
   destruct Hst as [Hp Hcs].
   rewrite clf_charloop_split by assumption.
